@@ -101,6 +101,13 @@ func describe(tr tracing.ITrace) (string, string, string) {
 		for _, s := range t.Flows {
 			fl = append(fl, s.Id().String())
 		}
+		if len(t.Flows) == 1 {
+			if sf := t.Flows[0].SequenceFlow(); sf != nil {
+				if p, ok := sf.Id(); ok {
+					return "flow", nodeID(t.Source), fl[0] + "@" + *p
+				}
+			}
+		}
 		return "flow", nodeID(t.Source), strings.Join(fl, ",")
 	case bpmn.NewFlowTrace:
 		return "newflow", t.FlowId.String(), ""
@@ -233,6 +240,7 @@ func mkEvent(kind, ref string) event.IEvent {
 func (c *ProcCase) Main() {
 	env := c.env
 	L := &env.L
+	spyLog = L
 	ctx, cancel := context.WithCancel(context.Background())
 	defer cancel()
 	gen := &ctrGen{prefix: "id"}
@@ -380,8 +388,13 @@ func (c *ProcCase) Main() {
 			answers[r.act]++
 			n := answers[r.act]
 			res := map[string]any{"r_" + r.act: fmt.Sprintf("%s#%d", r.act, n), "u_" + r.act: "undeclared"}
-			if node, _ := c.Prog.Defs.Procs[0].FindNode(r.act); node != nil && node.Counter != "" {
-				res[node.Counter] = n
+			if node, _ := c.Prog.Defs.Procs[0].FindNode(r.act); node != nil {
+				if node.Counter != "" {
+					res[node.Counter] = n
+				}
+				for _, k := range sortedKeys(node.Writes) {
+					res[k] = node.Writes[k]
+				}
 			}
 			L.AddV("ans", r.act, res)
 			r.tt.Do(bpmn.DoWithResults(res))
